@@ -156,8 +156,10 @@ package ucfg
 //@ ensures len(result) >= 1
 
 //@ func normalizeString :: ctx, opts, str -> r, err
-//@ props C07 C20
+//@ props C07 C20 C10
+//@ tagged-only C10
 //@ sweep
+//@ ensures [no_sub @C10] err == nil ==> typeof(r) != cfgSub
 //@ at-call parseSplice requires pathSep == entry(opts).pathSep && maxIdx == entry(opts).maxIdx && enableNumKeys == entry(opts).enableNumKeys && allowEscapePath == entry(opts).escapePath
 
 //@ func parseSplice
@@ -1110,7 +1112,6 @@ package ucfg
 //@ ensures [ok] typeof(elem) == cfgSub ==> err == nil
 //@ ensures [stored @C12] typeof(elem) == cfgSub ==> has(elem.(cfgSub).c.fields.d, n.name) && elem.(cfgSub).c.fields.d[n.name] == v
 //@ ensures [slot_ctx @C15] err == nil ==> ctxof(v).parent == elem && ctxof(v).field == n.name
-//@ ensures [source_kept @C10] typeof(elem) == cfgSub && typeof(v) == cfgSub ==> v.(cfgSub).c.ctx == old(v.(cfgSub).c.ctx)
 //@ ensures [refine_meta @C12,C14] typeof(elem) == cfgSub && objref(v) != objref(elem) ==> elem.(cfgSub).c.metadata == old(elem.(cfgSub).c.metadata)
 
 //@ func (*context).empty
@@ -1813,8 +1814,31 @@ package ucfg
 //@ loop 1 invariant t != nil
 //@ loop 1 invariant rtKind(entry(t)) != 22 ==> t == entry(t)
 
+// C10: every sub-configuration that normalization puts into the tree it builds is a new node - never a node of the
+// input (an embedded *Config is a merge source: it is copied, not adopted)
+//@ func normalizeStruct :: opts, from -> r, err
+//@ props C07 C10
+//@ sweep
+//@ ensures [new_node @C10] err == nil ==> r != nil && fresh(r)
+
+//@ func normalizeMap :: opts, from -> r, err
+//@ props C07 C10
+//@ sweep
+//@ ensures [new_node @C10] err == nil ==> r != nil && fresh(r)
+
+//@ func normalizeStructValue :: opts, ctx, from -> r, err
+//@ props C07 C10
+//@ sweep
+//@ ensures [new_node @C10] err == nil ==> typeof(r) == cfgSub && fresh(r.(cfgSub).c)
+
+//@ func normalizeMapValue :: opts, ctx, from -> r, err
+//@ props C07 C10
+//@ sweep
+//@ ensures [new_node @C10] err == nil ==> typeof(r) == cfgSub && fresh(r.(cfgSub).c)
+
 //@ func normalizeValue :: opts, tagOpts, ctx, v -> r, err
-//@ props C06 C07
+//@ props C06 C07 C10
+//@ tagged-only C10
 //@ norte assert nil
 //@ sweep
 //@ checks-pre normalizeArray
@@ -1825,6 +1849,7 @@ package ucfg
 //@ ensures [uint @C06] rvType(chased(v)) != old(tDuration) && rvType(chased(v)) != old(tRegexp) && 7 <= rvKind(chased(v)) && rvKind(chased(v)) <= 11 ==> err == nil && typeof(r) == *cfgUint && r.(*cfgUint) != nil && r.(*cfgUint).u == rvUint(chased(v))
 //@ ensures [float @C06] rvType(chased(v)) != old(tDuration) && rvType(chased(v)) != old(tRegexp) && (rvKind(chased(v)) == 13 || rvKind(chased(v)) == 14) ==> err == nil && typeof(r) == *cfgFloat && r.(*cfgFloat) != nil && same(r.(*cfgFloat).f, rvFloat(chased(v)))
 //@ ensures [bool @C06] rvType(chased(v)) != old(tDuration) && rvType(chased(v)) != old(tRegexp) && rvKind(chased(v)) == 1 ==> err == nil && typeof(r) == *cfgBool && r.(*cfgBool).b == rvBool(chased(v))
+//@ ensures [subs_are_new @C10] err == nil && typeof(r) == cfgSub ==> fresh(r.(cfgSub).c)
 //@ ensures [duration_as_text @C06] rvType(chased(v)) == old(tDuration) && err == nil ==> typeof(r) == *cfgString && r.(*cfgString) != nil && ctxof(r) == ctx
 //@ ensures [regexp_as_text @C06] rvType(chased(v)) == old(tRegexp) && err == nil ==> typeof(r) == *cfgString && r.(*cfgString) != nil && ctxof(r) == ctx
 //@ ensures [ctx @C06,C15] rvType(chased(v)) != old(tDuration) && rvType(chased(v)) != old(tRegexp) && 1 <= rvKind(chased(v)) && rvKind(chased(v)) <= 14 && rvKind(chased(v)) != 12 && err == nil ==> ctxof(r) == ctx && metaof(r) == old(opts.meta)
@@ -2556,12 +2581,14 @@ package ucfg
 
 // normalizeArray: one configuration list entry per element of the Go array or slice
 //@ func normalizeArray :: opts, tagOpts, ctx, v -> r, err
-//@ props C07 C06
+//@ props C07 C06 C10
+//@ tagged-only C10
 //@ sweep
 //@ checks-pre normalizeValue
 //@ requires opts != nil && (rvKind(v) == 17 || rvKind(v) == 23)
 //@ modifies *
 //@ ensures [length] err == nil ==> typeof(r) == cfgSub && r.(cfgSub).c != nil && len(r.(cfgSub).c.fields.a) == rvLen(v)
+//@ ensures [new_node @C10] err == nil ==> typeof(r) == cfgSub && fresh(r.(cfgSub).c)
 //@ loop 1 invariant 0 <= i && i <= l && len(out) == i && l == rvLen(v) && cfg != nil
 
 // ---------------------------------------------------------------- C06: a struct field is written under the key it is read from
